@@ -42,7 +42,7 @@ def configs(tier, seed):
         if c["op"] in ("badfraction", "combofilter"):
             continue
         out.append(dict(c, name="retro " + c["name"], h="retro"))
-    out += [dict(name="random scorer", h="rand_scorer"), dict(name="dbal sub-sampling", h="dbal"), dict(name="dbal scorer reused", h="dbal_reuse"),
+    out += [dict(name="random scorer", h="rand_scorer"), dict(name="dbal sub-sampling", h="dbal"), dict(name="dbal scorer reused", h="dbal_reuse"), dict(name="model object trained twice", h="resample"),
             dict(name="policy + select_next_plate", h="select"), dict(name="seed argument", h="seedarg"),
             dict(name="gibbs sparse_combo", h="gibbs", model="combo"), dict(name="gibbs interaction", h="gibbs", model="inter"),
             dict(name="mvn draw", h="mvn"),
@@ -230,6 +230,59 @@ def h_dbal_reuse(ctx, cfg):
     return _judge(ctx, st, "DBAL scorer reuse")
 
 
+def h_resample(ctx, cfg):
+    """model training is a function of (inputs, seed) also when the same model object is trained again: the second
+    run uses the generator of its own seed, like a fresh model given that seed"""
+    core = ctx.mod("batchie.core")
+    sampling = ctx.mod("batchie.sampling")
+
+    class M(core.MCMCModel):  # the generator protocol of the shipped models: set_rng stores, .rng returns
+        def __init__(self, rng=None):
+            self._rng = rng
+            self.x = None
+
+        def reset_model(self):
+            self.x = None
+
+        def set_rng(self, rng):
+            self._rng = rng
+
+        @property
+        def rng(self):
+            return self._rng
+
+        def step(self):
+            self.x = self.rng.normal()
+
+        def get_model_state(self):
+            return self.x
+    s1, s2 = ctx.int("seed", 0), ctx.int("seed2", 0)
+    kw = dict(n_chains=2, chain_index=1, n_burnin=1, thin=1)
+    with _Streams(ctx) as st:
+        m = M()
+        sampling.sample(m, core.ThetaHolder(n_thetas=2), seed=s1, **kw)
+        g1 = m.rng
+        r2 = sampling.sample(m, core.ThetaHolder(n_thetas=2), seed=s2, **kw)
+        g2 = m.rng
+        fresh = M()
+        r3 = sampling.sample(fresh, core.ThetaHolder(n_thetas=2), seed=s2, **kw)
+        pre = M(rng=ctx.rng("P"))   # a model constructed with a generator of its own: sample() still installs the seed's
+        r4 = sampling.sample(pre, core.ThetaHolder(n_thetas=2), seed=s2, **kw)
+    key = "sampling.sample output depends on the model object's history"
+    if ctx.mode == "real":
+        ctx.prove(list(r2.thetas) == list(r3.thetas), "a model trained again with seed s gives the samples of a fresh model trained with seed s", key=key)
+        ctx.prove(list(r4.thetas) == list(r3.thetas), "a model constructed with its own generator, trained with seed s, gives the samples of seed s", key=key)
+    else:
+        for what, g in (("trained again", g2), ("constructed with a generator", pre.rng)):
+            tok, want = g.token, fresh.rng.token
+            ok = g is not g1 and tok is not None and want is not None and len(tok) == len(want) and tok[0] == want[0]
+            if ok:
+                ok = ctx.And(*[tok[i] == want[i] for i in range(1, len(tok))])
+            ctx.prove(ok, "a model %s draws, when trained with seed s, from the generator derived from s" % what, key=key)
+            ctx.prove(g.ndraws == fresh.rng.ndraws, "and takes the same number of draws from it as a fresh model")
+    return _judge(ctx, st, "model training (same model object trained twice)")
+
+
 def h_select(ctx, cfg):
     sm = ctx.mod("batchie.scoring.main")
     kp = ctx.mod("batchie.policies.k_per_sample")
@@ -408,5 +461,5 @@ def h_cli_train(ctx, cfg):
 
 def run(ctx, cfg):
     return {"retro": h_retro, "rand_scorer": h_rand_scorer, "dbal": h_dbal, "select": h_select, "seedarg": h_seedarg,
-            "gibbs": h_gibbs, "mvn": h_mvn, "dbal_reuse": h_dbal_reuse, "cli_scores": h_cli_scores, "cli_select": h_cli_select,
+            "gibbs": h_gibbs, "mvn": h_mvn, "dbal_reuse": h_dbal_reuse, "resample": h_resample, "cli_scores": h_cli_scores, "cli_select": h_cli_select,
             "cli_prepare": h_cli_prepare, "cli_train": h_cli_train}[cfg["h"]](ctx, cfg)
